@@ -230,7 +230,7 @@ def _order(components, label):
             t.start()
         for t in threads:
             t.join(60)
-        lp.wait_synced(5)
+        lp.wait_synced(30)
         time.sleep(0.2)
         if errors:
             bad.append({'key': f'writer-failed:{label}', 'detail': errors[0][:300]})
